@@ -148,10 +148,13 @@ class ProblemParser:
             for object_name, count in grounded_fluents_counter.items()
             if count > 1
         }
-        for grounded_signature_type, lifted_signature_type in zip(
-            fluent_signature.values(), lifted_function.signature.values()
+        # an object may appear more than once, so the types are validated per position and not per object name.
+        for object_name, lifted_signature_type in zip(
+            fluent_signature_items, lifted_function.signature.values()
         ):
-            assert grounded_signature_type.is_sub_type(lifted_signature_type)
+            assert possible_objects[object_name].type.is_sub_type(
+                lifted_signature_type
+            )
 
         return PDDLFunction(
             name=function_name,
